@@ -7,10 +7,11 @@ clienting.Respondent over httping.parseLine/parseLeader/parseChunk) in up to thr
 with `parse()` called after every piece -- the way Valet / Patron call it once per service
 pass.  Oracle: the fields parsed from the pieces == the fields parsed from one piece == the
 generator's structured content, and the bytes that follow the message are still in the
-buffer.  Cut offsets, body length, chunk sizes and tail amount are symbolic integers; they
-are realised when they slice / format the concrete bytes, so the solver's contribution here
-is the proof that the bounded space was enumerated without a gap (selector-symbolic, DESIGN
-section 2).  The parser itself runs untraced once everything is realised.
+buffer.  Cut offsets, body length, chunk sizes and tail amount are symbolic integers; each is
+pinned to one value per path by solver-decided bisection (engine.doubles_http.pick) because it
+slices / formats concrete bytes, so the solver's contribution here is the proof that the
+bounded space was enumerated without a gap (selector-symbolic, DESIGN section 2).  The parser
+itself runs untraced once everything is pinned.
 """
 from engine import Ob
 from engine.doubles_http import untraced, pick, raise_site, exc_text
@@ -33,7 +34,7 @@ ASSUMPTIONS = [
     "read-until-close responses: the connection close is signalled with Respondent.close() after the last piece, then parse() once more",
     "Requestant is given an incomer double with only a .timeout attribute (no socket involved)",
     "an interim `100 Continue` response followed by the final response: either the 100 response is reported as a message of its own (rest left in the buffer) or it is skipped and the final response reported -- the statement does not say which",
-    "cut offsets / lengths / sizes are realised on use (enumerated by the engine); the parser runs untraced",
+    "cut offsets / lengths / sizes are pinned to single values per path by solver bisection (enumerated by the engine); the parser runs untraced",
 ]
 LEVEL_NOTE = "selector-symbolic: solver proves the bounded shape x split space was exhausted; each path is a concrete run of the real parser"
 TECHNIQUE = "bounded exhaustive split enumeration driven by the CrossHair/z3 search tree, differential against whole-message parse and against the generator's content"
